@@ -8,7 +8,7 @@ import json
 from common import IRQ, MSG, OPEN, TERM, V, digest
 
 UNITS = {'s': 1000, 'm': 60000, 'h': 3600000, 'd': 86400000}
-DURS = ['1s', '2s', '3s', '5s', '30s', '1m', '2m', '90s', '1h', '2h', '1d']
+DURS = ['1s', '2s', '3s', '5s', '30s', '1m', '2m', '90s', '1h', '2h', '1d', '60s', '120s', '3600s', '60m', '24h']      # (some are the same duration in another unit)
 
 
 def ms(on):
@@ -22,7 +22,7 @@ class TimeoutFamily:
         level = rng.choice(['step', 'act'])
         snap = opts.get('snap', 'live')
         ons = rng.sample(DURS, rng.randint(1, 3))
-        ons = [o for i, o in enumerate(ons) if ms(o) not in [ms(x) for x in ons[:i]]]
+        # (two rules of one task may have the same duration as long as they are spelled differently: both fire)
         if rng.random() < 0.5:
             ons.sort(key=ms, reverse=rng.random() < 0.5)
         rules = []
@@ -39,9 +39,12 @@ class TimeoutFamily:
         timed_act = {'id': 'a1', 'uses': IRQ, 'key': 'k1'}
         s1 = {'id': 's1', 'acts': [timed_act]}
         (s1 if level == 'step' else timed_act)['timeout'] = rules
+        idless = level == 'act' and rng.random() < 0.2
+        if idless:
+            timed_act.pop('id')          # the engine names the timed act; the client knows it by its key
         wf = {'id': 'm1', 'steps': [s1, {'id': 's2', 'acts': [{'id': 'a2', 'uses': IRQ, 'key': 'k2'}]}]}
-        target = {'pid': 'p1', 'nid': 's1' if level == 'step' else 'a1', 'occ': 0}
-        limits = sorted(ms(o) for o in ons)
+        target = {'pid': 'p1', 'nid': 's1', 'occ': 0} if level == 'step' else {'pid': 'p1', 'key': 'k1', 'occ': 0}
+        limits = sorted({ms(o) for o in ons})
         # tick times relative to the timed task's start
         times = set()
         for L in limits:
@@ -86,12 +89,16 @@ class TimeoutFamily:
         if opts.get('store') == 'sqlite':
             sc['watchdog_ms'] = 90000
             sc['sched'] += '-sqlite'
-        return {'scenarios': [sc], 'meta': {'wf': wf, 'level': level, 'ons': ons, 'times': times, 'answer_at': answer_at, 'nested': nested}, 'digest': digest([wf, times, answer_at]), 'nontrivial': True}
+        return {'scenarios': [sc], 'meta': {'idless': idless, 'wf': wf, 'level': level, 'ons': ons, 'times': times, 'answer_at': answer_at, 'nested': nested}, 'digest': digest([wf, times, answer_at]), 'nontrivial': True}
 
     def judge(self, c, opts, obs):
         h, sc, m = c['hist'][0], c['scenarios'][0], c['meta']
         out = []
-        timed = [('s1' if m['level'] == 'step' else 'a1', m['level'], m['ons'], {f't{i}_0': on for i, on in enumerate(m['ons'])})]
+        main_nid = 's1' if m['level'] == 'step' else 'a1'
+        if m.get('idless'):
+            d0 = [d for d in h.delivers if d['key'] == 'k1' and d['state'] == 'created']
+            main_nid = h.create_by[(d0[0]['pid'], d0[0]['tid'])]['nid'] if d0 and (d0[0]['pid'], d0[0]['tid']) in h.create_by else 'a1'
+        timed = [(main_nid, m['level'], m['ons'], {f't{i}_0': on for i, on in enumerate(m['ons'])})]
         for (tn, on_, fs) in m.get('nested') or []:
             timed.append((tn, 'nested-act', [on_], {fs: on_}))
         for nid, lvl, ons, first_step in timed:
